@@ -8,6 +8,7 @@ import (
 	"math/big"
 
 	"github.com/Oneledger/protocol/action"
+	action_gov "github.com/Oneledger/protocol/action/governance"
 	"github.com/Oneledger/protocol/action/olvm"
 	"github.com/Oneledger/protocol/storage"
 	sv "github.com/Oneledger/protocol/zz_sv"
@@ -39,12 +40,12 @@ func (m *svMore) sign(nosig bool) action.SignedTx {
 	return svSign(m.raw, m.signers...)
 }
 
-// svMoreKindEnv: one transaction of one of the five families from that
+// svMoreKindEnv: one transaction of one of the six families from that
 // family's symbolic pre-state. hostile adds payload variants that Validate is
 // expected to refuse (used by C18).
 func svMoreKindEnv(hostile bool) *svMore {
 	svLean = true
-	m := &svMore{family: sv.Choice("family", 5)}
+	m := &svMore{family: sv.Choice("family", 6)}
 	switch m.family {
 	case 0: // evidence
 		svCurrencyLimit = 1
@@ -71,6 +72,25 @@ func svMoreKindEnv(hostile bool) *svMore {
 		kind := sv.Choice("kind", 3)
 		m.e = svNewEnv(3, 20, svPreETH(pre, kind))
 		m.raw, m.signers = svBuildETH(m.e, pre, kind)
+	case 5: // governance create / fund / withdraw-funds / cancel
+		svCurrencyLimit = 2
+		pre := &svPropPre{}
+		m.e = svNewEnv(2, 20, svPreGov(pre))
+		kind := sv.Choice("kind", 4)
+		m.raw, m.signers = svBuildGov(m.e, kind)
+		if hostile && kind == 0 && sv.Choice("create.noGoal", 2) == 1 {
+			// the optional funding goal left out of the payload
+			cp := &action_gov.CreateProposal{}
+			if err := cp.Unmarshal(m.raw.Data); err != nil {
+				sv.Unreachable("create payload")
+			}
+			cp.FundingGoal = nil
+			data, err := cp.Marshal()
+			if err != nil {
+				sv.Unreachable("marshal")
+			}
+			m.raw.Data = data
+		}
 	default: // OLVM
 		svCurrencyLimit = 1
 		svUseEthParties()
